@@ -51,7 +51,7 @@ func loadC19Progs(baseSeed uint64, nGen int) []*c19Prog {
 	}
 	r := NewRNG(deriveSeed(baseSeed, 501, 0))
 	for i := 0; i < nGen; i++ {
-		ps := genProgram(r, fmt.Sprintf("gen%04d", i), false)
+		ps := genProgram(r, fmt.Sprintf("gen%04d", i), false, false)
 		p := ps[0]
 		if len(p.Body) > 60 {
 			p.Body = p.Body[:60]
